@@ -157,7 +157,7 @@ static void case_f(ByteSource& in, CaseInfo& ci) {
     case 3: { int64_t v = in.flag() ? (int64_t)T.low() * (T.neg ? -1 : 1) : (int64_t)PALETTE[in.u8() & 7]; if (in.chance(30)) v = in.flag() ? INT64_MIN : INT64_MAX; ci.d(" si=%lld", (long long)v); int g = mpf_cmp_si(a.f, v), e = cmp_dy(a.v, Dy{Int((long long)v), 0}); REQUIRE(sgn3(g) == sgn3(e), "mpf_cmp_si: returned %d, exact sign %d", g, e); break; }
     case 4: { Z z; Int zz = in.flag() ? T + Int((long long)in.srange(-1, 1)) : gen_boundary_int(in, 6); mpz_from_int(z, zz); int g = mpf_cmp_z(a.f, z), e = cmp_dy(a.v, Dy{zz, 0}); REQUIRE(sgn3(g) == sgn3(e), "mpf_cmp_z: returned %d, exact sign %d", g, e); break; }
     case 5: { if (!a.v.m.is_zero() && in.chance(50)) {   // exponents far outside the double range, up to what an mp_exp_t holds: infinity / zero (truncation) expected
-        static const long HE[] = {1L << 57, (1L << 57) + 1, 1L << 58, (1L << 58) - 1, 1L << 60, (1L << 62), 20, 17, 100000}; long he = HE[in.range(0, 8)]; bool up = in.flag(); a.f->_mp_exp = up ? he : -he; double g = mpf_get_d(a.f);
+        static const long HE[] = {1L << 57, (1L << 57) + 1, 1L << 58, (1L << 58) - 1, 1L << 60, (1L << 62), 20, 17, 100000, LONG_MAX, LONG_MAX - 1, LONG_MAX - 3, LONG_MAX / 64, LONG_MAX / 64 + 1, LONG_MAX / 64 - 2}; long he = HE[in.range(0, 14)]; bool up = in.flag(); a.f->_mp_exp = up ? he : -he; if (!up && he == LONG_MAX && in.flag()) a.f->_mp_exp = LONG_MIN;   /* every exponent an mp_exp_t holds */ double g = mpf_get_d(a.f);
         double want = up ? (a.v.m.neg ? -INFINITY : INFINITY) : (a.v.m.neg ? -0.0 : 0.0); ci.label("mpf_get_d:huge_exponent"); ci.d(" exponent set to %s%ld limbs", up ? "" : "-", he);
         REQUIRE(g == want, "mpf_get_d of a value with exponent %s%ld limbs: returned %a, expected %a", up ? "" : "-", he, g, want); break; }
       int zone; double e = a.v.e >= 0 ? trunc_to_double(ref::shl(a.v.m, a.v.e), Int(1), zone) : trunc_to_double(a.v.m, ref::pow2(-a.v.e), zone); double g = mpf_get_d(a.f);
